@@ -104,7 +104,7 @@ def floors(tier):
             "raised_ValidationError": 20000, "raised_RefResolutionError": 50, "raised_UnknownType": 20,
             "distinct_nontrivial": 20000, "entry:is_valid": 10000, "entry:iter_errors": 10000,
             "entry:validate": 2000, "entry:module_validate": 2000, "entry:with_format_checker": 2000,
-            "pairs_consulting": 500, "hostile_string_schemas": 1000, "reused_validator_sequences": 500, "stacked_applicator_schemas": 40}
+            "pairs_consulting": 500, "hostile_string_schemas": 1000, "reused_validator_sequences": 500, "stacked_applicator_schemas": 40, "format_near_miss_cases": 1500}
 
 
 # --------------------------------------------------------------------- known-finding classifiers
@@ -473,6 +473,19 @@ def _core(ctx, R):
             ctx.count("hostile_string_schemas")
             for inst in insts:
                 R.case(d, s, inst, full=True)
+        # every format the shipped checker knows (and two it does not), against near-misses of every format
+        from jsonschema import FormatChecker as _FC
+        for f in sorted(_FC.checkers) + ["date-time", "unknown-format"]:
+            for nested in (False, True):
+                idx += 1
+                if not ctx.mine(idx):
+                    continue
+                s = {"format": f} if not nested else {"properties": {"v": {"format": f}}, "items": {"format": f}}
+                if not gate(ctx, d, s):
+                    continue
+                for text in FORMAT_NEAR_MISSES:
+                    ctx.count("format_near_miss_cases")
+                    R.case(d, s, text if not nested else ({"v": text} if len(text) % 2 else [text, 1, None]), full=True)
         for s in _ref_schemas(d):
             idx += 1
             if not ctx.mine(idx):
@@ -560,6 +573,14 @@ def _deep_obj(n, leaf):
 HOSTILE_STRINGS = ["%", "%s", "%d", "%(x)s", "%%", "50%", "{}", "{0}", "{error}", "{file_name}", "\\", "'", '"', "a\nb", "\x00",
                    "\U0001d11e", "%r", "$", "^", "a b", "<>", "\t", "%5", "% d"]
 HOSTILE_REGEXES = ["%", "^[0-9]+%$", "%s", "%d%%", "\\{\\}", "a{1}", "'", '"', "%(x)s", "^\\$", "\\\\", "{", "%r|x", "\\x00"]
+
+
+FORMAT_NEAR_MISSES = [
+    "2021-02-30", "2021-13-01", "0000-00-00", "9999-99-99", "2000-02-29", "1900-02-29", " 2021-01-01", "2021-01-01\n", "2021-1-1", "2021-00-10",
+    "2021-02-30T00:00:00Z", "\u0661\u0662\u0663\u0664-\u0660\u0661-\u0660\u0661", "24:00:00", "25:61:61", "12:00:60", "23:59:59", "1:2:3", "12:00",
+    "1.2.3.256", "1.2.3", "1.2.3.4", "+1.2.3.4", "\uff11.\uff12.\uff13.\uff14", "0x1.2.3.4", "1.2.3.4/24", "1.2.3.4.", "::1::", "12345::", "::", "::ffff:1.2.3.999",
+    "1::2::3", "fe80::1%eth0", "[", "(", "a**", "\\", "(?P<n>", "[a-", "a{2,1}", "(?<=a+)b", "\\1", "a@b", "@", "a@", "@b", "a b@c", "\u00e9@\u00e9.com",
+    "xn--", "xn--a", "\u00e9.com", "-.com", "a..b", ".....", "a" * 300, "\x00", "", " ", "\ud800", "\U0001d11e", "%", "{}", "1e5", "-1", "null"]
 
 
 def _hostile_string_schemas(d):
